@@ -22,7 +22,7 @@ def status_table():
     for i in range(1, 21):
         pid = "C%02d" % i
         pf = os.path.join(V, "coq", "Properties", pid + ".v")
-        n = len(re.findall(r"^\s*Theorem\s", open(pf).read(), re.M)) if os.path.exists(pf) else 0
+        n = len(re.findall(r"^\s*(?:Theorem|Lemma|Example|Corollary)\s", open(pf).read(), re.M)) if os.path.exists(pf) else 0
         ev = os.path.join(V, "evidence", pid + ".json")
         evs = "-"
         if os.path.exists(ev):
